@@ -52,6 +52,10 @@ def run(r):
                 qry_ok = all(absent(t) for t in q2)
             else:
                 qry_ok = qry == "SEQS2"
+            if ref is None or ot is None or (not no_query and qry is None):
+                # an argument whose origin the role analysis cannot trace (through a closure, a container, ...) is not a wrong argument
+                rep.require(False, f"{fq}: the origin of the arguments of {show(c, 70)} cannot be traced to the API parameters; cannot decide [C10-SITE]")
+                continue
             rep.ob("C10-SITE", fq, ref == "SEQS" and qry_ok and ot == "OT", "the result is shaped by the reference collection (rows) and the query collection (columns) and by the caller's output_type",
                    wh(r, fq, e.node), expected="_make_output(triplets, output_type, seqs, seqs2)", found=show(c, 90), key=f"make_output site {fq}")
     rep.require(sites >= 5, f"C10-SITE: {sites} _make_output call sites, floor is 5")
